@@ -119,44 +119,55 @@ package mobius
 // cc.FileRoot()); the file root registered with a transfer is the requester's.
 
 //@ func HandleNewFolder(cc *hotline.ClientConn, t *hotline.Transaction) (res []hotline.Transaction)
+//@   property C07
 //@   loop 1 invariant subPath == "" || rooted(subPath)
 //@   before call (hotline.FileStore).Stat assert inroot(arg1)
 //@   before call (hotline.FileStore).Mkdir assert inroot(arg1)
 
 //@ func HandleSetFileInfo(cc *hotline.ClientConn, t *hotline.Transaction) (res []hotline.Transaction)
+//@   property C07
 //@   before call (hotline.FileStore).Stat assert inroot(arg1)
 //@   before call os.Rename assert inroot(arg0) && inroot(arg1)
 //@   before call (*hotline.fileWrapper).Move assert fullFilePath != ROOT ==> seg(hlFile.Name) && inroot(arg1)
 
 //@ func HandleDeleteFile(cc *hotline.ClientConn, t *hotline.Transaction) (res []hotline.Transaction)
+//@   property C07
 //@   before call hotline.NewFileWrapper assert inroot(arg1)
 
 //@ func HandleMoveFile(cc *hotline.ClientConn, t *hotline.Transaction) (res []hotline.Transaction)
+//@   property C07
 //@   before call hotline.NewFileWrapper assert inroot(arg1)
 
 //@ func HandleMakeAlias(cc *hotline.ClientConn, t *hotline.Transaction) (res []hotline.Transaction)
+//@   property C07
 //@   before call (hotline.FileStore).Symlink assert inroot(arg1) && inroot(arg2)
 
 //@ func HandleGetFileInfo(cc *hotline.ClientConn, t *hotline.Transaction) (res []hotline.Transaction)
+//@   property C07
 //@   before call hotline.NewFileWrapper assert inroot(arg1)
 
 //@ func HandleGetFileNameList(cc *hotline.ClientConn, t *hotline.Transaction) (res []hotline.Transaction)
+//@   property C07
 //@   before call hotline.GetFileNameList assert inroot(arg0)
 
 //@ func HandleDownloadFile(cc *hotline.ClientConn, t *hotline.Transaction) (res []hotline.Transaction)
+//@   property C07
 //@   before call hotline.NewFileWrapper assert inroot(arg1)
 //@   before call (*hotline.ClientConn).NewFileTransfer assert arg2 == ROOT
 
 //@ func HandleUploadFile(cc *hotline.ClientConn, t *hotline.Transaction) (res []hotline.Transaction)
+//@   property C07
 //@   before call (hotline.FileStore).Stat assert inroot(arg1)
 //@   before call (*hotline.ClientConn).NewFileTransfer assert arg2 == ROOT
 
 //@ func HandleDownloadFolder(cc *hotline.ClientConn, t *hotline.Transaction) (res []hotline.Transaction)
+//@   property C07
 //@   before call hotline.CalcTotalSize assert inroot(arg0)
 //@   before call hotline.CalcItemCount assert inroot(arg0)
 //@   before call (*hotline.ClientConn).NewFileTransfer assert arg2 == ROOT
 
 //@ func HandleUploadFolder(cc *hotline.ClientConn, t *hotline.Transaction) (res []hotline.Transaction)
+//@   property C07
 //@   before call (*hotline.ClientConn).NewFileTransfer assert arg2 == ROOT
 
 // C07: account files are written, renamed and removed inside the accounts directory only.
